@@ -1,7 +1,7 @@
 (* C05 -- wire codecs are total, round-trip exactly and follow the RFC 9000 layout.
    Property theorems only; each is closed by [exact] of a lemma proved in proofs/. *)
 From SQ Require Import lib.Base gen.Gen_C05.
-From SQ Require model.Varint proofs.VarintProofs model.Frame proofs.FrameProofs proofs.FrameWf model.PacketHeader proofs.PacketProofs.
+From SQ Require model.Varint proofs.VarintProofs model.Frame proofs.FrameProofs proofs.FrameWf model.PacketHeader proofs.PacketProofs model.TpGrammar proofs.TpGrammarProofs.
 Local Open Scope N_scope.
 
 (* ---- variable-length integers (RFC 9000 section 16) ---- *)
@@ -154,6 +154,22 @@ Example C05_packet_examples :
   /\ run_pn [0xabe8bc; 0xac5c02]%Z = [1; 2; 1; 0x5c; 0x02; 1; 1]%Z.
 Proof. repeat split; vm_compute; reflexivity. Qed.
 
+(* ---- transport parameter block grammar (RFC 9000 section 18); parameter semantics are C14 ---- *)
+Import TpGrammar.
+
+Theorem C05_tparams_roundtrip : forall ps fuel, tp_ok ps = true -> (length ps <= fuel)%nat ->
+  tp_parse fuel (tp_encode ps) = Some ps.
+Proof. exact TpGrammarProofs.tp_roundtrip. Qed.
+
+(* the block parser needs no more steps than there are bytes: its answer is independent of any
+   fuel >= length (total, no endless loop) *)
+Theorem C05_tparams_total : forall fuel1 fuel2 bs, (length bs <= fuel1)%nat -> (length bs <= fuel2)%nat ->
+  tp_parse fuel1 bs = tp_parse fuel2 bs.
+Proof. exact TpGrammarProofs.tp_parse_fuel. Qed.
+
+Theorem C05_tparams_judge_model : forall case, TpGrammar.judge case (TpGrammar.run case) = true.
+Proof. exact TpGrammarProofs.judge_run. Qed.
+
 Print Assumptions C05_varint_roundtrip.
 Print Assumptions C05_varint_roundtrip_any_length.
 Print Assumptions C05_varint_size.
@@ -178,3 +194,6 @@ Print Assumptions C05_pn_bytes_value.
 Print Assumptions C05_packets_judge_model.
 Print Assumptions C05_packets_judge_sound.
 Print Assumptions C05_pn_judge_model.
+Print Assumptions C05_tparams_roundtrip.
+Print Assumptions C05_tparams_total.
+Print Assumptions C05_tparams_judge_model.
